@@ -177,7 +177,7 @@ QUICK = ["H1_deser_selfrec", "H2_ser_selfrec", "H3_shared_member", "H4_mutual", 
 ALL = list(H_SRC)
 
 
-def shared_state_codes(instr: bool, wide: bool = True):
+def shared_state_codes(instr: bool, wide=True):
     """code objects carrying scheduling points.  core: the modules owning shared mutable state
     (recursion analysis, caches, lazy conversions, lazily compiled recursive methods, validator
     dependency cache); wide: plus the visitors / factories that read and fill them."""
@@ -197,6 +197,13 @@ def shared_state_codes(instr: bool, wide: bool = True):
 
     line = []
     seen = set()
+    if wide == "tiny":
+        # the recursion analysis, the caches and the lazily compiled recursive methods only
+        for m in (rec, cch):
+            line += e3.code_objects(m, seen)
+        for f in (dm.RecMethod, sm.RecMethod, convs.LazyConversion):
+            line += e3.code_objects(f, seen)
+        return line, []
     for m in (rec, cch, convs, vdep):
         line += e3.code_objects(m, seen)
     core = [
@@ -332,8 +339,7 @@ def _collect(hname, ex: e3.Explorer, st: infra.Stats):
         v["signature"] = {"kind": "schedule_violation", "harness": hname, "symptom": kind, "switch": loc_sig(v)}
         if _CFG.get("instr"):
             v["instr"] = True
-        if not _CFG.get("wide"):
-            v["core_points_only"] = True
+        v["points"] = _CFG.get("wide")
         st.violation(v)
 
 
@@ -389,10 +395,11 @@ def main(tier: str, t0: float) -> int:
         plan_desc = {"wide line points, 1 preemption": QUICK}
     else:
         st = run_config([(h, 1) for h in ALL], False, True)
-        st.merge(run_config([(h, 2) for h in ALL if h != "H8_three_threads"], False, False))
+        two = ["H1_deser_selfrec", "H2_ser_selfrec", "H3_shared_member", "H4_mutual", "H5_generic_rec", "H9_validators_conv"]
+        st.merge(run_config([(h, 2) for h in two], False, "tiny"))
         core4 = ["H1_deser_selfrec", "H2_ser_selfrec", "H3_shared_member", "H4_mutual"]
         st.merge(run_config([(h, 1) for h in core4], True, False))
-        plan_desc = {"wide line points, 1 preemption": ALL, "core line points, 2 preemptions": [h for h in ALL if h != "H8_three_threads"], "bytecode points on recursion core, 1 preemption": core4}
+        plan_desc = {"wide line points, 1 preemption": ALL, "recursion/cache line points, 2 preemptions": two, "bytecode points on recursion core, 1 preemption": core4}
     st.counters["evaluations"] = st.counters.get("schedules", 0)
     outcomes = sum(len(v) for k, v in st.sets.items() if k.startswith("outcomes:"))
     return infra.finish(
@@ -423,7 +430,7 @@ def replay(path: str) -> int:
     v = json.load(open(path))
     hname = v["harness"]
     sys.setrecursionlimit(400)
-    line, ins = shared_state_codes(bool(v.get("instr")), not v.get("core_points_only"))
+    line, ins = shared_state_codes(bool(v.get("instr")), v.get("points", True))
     e3.install(line, ins)
     base_res, base_fu = baseline(hname)
     ok = True
